@@ -12,6 +12,7 @@ EXPLANATION = (
     "edges by id and the validator keeps its ordering/range/tag rejections. Injectivity and write/read equality as "
     "values are NOT decided."
     ' Every attachment row of the columnar build appends to ONE blob arena (offsets are relative to the arena that is written).'
+    " Round 5 (R5): representation independence of the from-scratch root — every GraphStore site that shrinks an adjacency bucket tests it for emptiness afterwards (nothing-removed exits excepted) and its method can drop the key, since compute_state_root walks the bucket map and would hash an empty bucket; the accumulator's OpenPortal(Empty) arm writes the child's root node row on every path, as the store side (apply_open_portal + ensure_child_root) does."
 )
 ASSUMPTIONS = ["BLAKE3 collision resistance", "BTreeMap/BTreeSet iterate in key order"]
 FLOOR = 45
@@ -286,7 +287,7 @@ def run(ctx):
             while outer.is_closure() and prog.fns.get(outer.rec.get("parent")) is not None:
                 outer = prog.fns[outer.rec.get("parent")]
             removes = outer.call_sites(r"BTreeMap::<.*>::remove$|BTreeMap<.*>::remove$")
-            rep.check(w_ is None and bool(removes), "C06.R5", "bucket-shrink-tests-emptiness:%s@%s" % (g.id.replace("warp_core::graph::GraphStore::", ""), (g.callee_of(g.blocks[bi]["t"]) or "").rsplit("::", 1)[-1]),
+            rep.check(w_ is None and bool(removes), "C06.R5", "bucket-shrink-tests-emptiness:%s@%s:%s" % (g.id.replace("warp_core::graph::GraphStore::", ""), (g.callee_of(g.blocks[bi]["t"]) or "").rsplit("::", 1)[-1], "from-bucket" if "EdgeRecord" in ty else "to-bucket"),
                       "the bucket is tested for emptiness after shrinking; the method can drop the key",
                       "%s shrinks an adjacency bucket (line %s) and can finish without testing it for emptiness / dropping its key: an empty bucket stays in the map, and "
                       "compute_state_root hashes it as `from || 0` — the root then depends on storage history, and disagrees with the accumulator" % (g.name, g.block_line(bi)), site=g.loc(g.block_line(bi)))
